@@ -15,7 +15,7 @@ RULE = ('streams from an independent encoder (harness/streams.py): payloads 1..1
         'Flow Control (reference frame from the extracted Coq Spec: ContinueToSend, configured blocksize/stmin, padding, id, prefix) '
         'after the First Frame and after every blocksize-th Consecutive Frame that does not complete the message; no error. '
         'Every case is replayed on the extracted model. non-trivial = distinct cases'
-        " 30 % of the multi-frame cases run full duplex: the receiver transmits a multi-frame message of its own meanwhile (queued before or during the reception, paced by the peer's STmin); only its Flow Control frames are counted."
+        " 30 % of the multi-frame cases run full duplex: the receiver transmits a multi-frame message of its own meanwhile (queued before or during the reception, paced by the peer's STmin); only its Flow Control frames are counted. A quarter of the others alternate receive-only and transmit-only process() calls over each batch."
         ' (reparam) tx_padding / tx_data_min_length changed with params.set() between two receptions: the Flow Control of the second is the reference frame of the new parameters.')
 ASSUME = ['frames of one message are processed within rx_consecutive_frame_timeout of each other (gaps of 0 or 0.45 x the timeout)']
 
@@ -46,6 +46,9 @@ def gen_case(rng, tier):
     # Frames paced by the peer's STmin so that they leave in the passes in which a Flow Control is due)
     duplex = (not slow) and len(frames) > 1 and len(frames) < 300 and rng.random() < 0.3
     own_at = rng.randint(0, len(frames) - 1) if duplex else None
+    # reception and transmission in separate calls: a receive-only pass stops at every frame that asks for a Flow Control, the
+    # transmit-only pass that follows emits it, the next receive-only pass reads on
+    splitp = (not slow) and (not duplex) and len(frames) < 200 and rng.random() < 0.25
     own_fc_at = None
     own_len = p.get('tx_data_length', 8) + rng.choice([1, 20, 100])      # always a multi-frame message of its own
     own_st = rng.choice([0, 1, 1, 2])
@@ -67,7 +70,11 @@ def gen_case(rng, tier):
         for f in frames[i:i + k]:
             ops.append([0, 'rx', rid, int(ext), hx(f)])
         i += k
-        ops.append([0, 'proc', 1, 1])
+        if splitp:
+            for _ in range(k + 1):
+                ops.append([0, 'proc', 1, 0]); ops.append([0, 'proc', 0, 1])
+        else:
+            ops.append([0, 'proc', 1, 1])
         if duplex:
             ops.append([0, 'tick', rng.choice([10**6, 10**6, 2 * 10**6, 0])])
         ops.append([0, 'recv'])
@@ -79,7 +86,7 @@ def gen_case(rng, tier):
         for _ in range(own_len // 6 + 3):
             ops.append([0, 'proc', 1, 1]); ops.append([0, 'tick', 2 * 10**6])
     tplen = 1 if inst['txa']['mode'].startswith(('Extended', 'Mixed')) else 0
-    return {'insts': [inst], 'ops': ops, 'payload': hx(payload), 'nframes': len(frames), 'sender_tx_dl': tx_dl, 'duplex': duplex, 'tplen': tplen}
+    return {'insts': [inst], 'ops': ops, 'payload': hx(payload), 'nframes': len(frames), 'sender_tx_dl': tx_dl, 'duplex': duplex, 'tplen': tplen, 'split_passes': splitp}
 
 
 def _is_fc_in(op, case):
@@ -198,6 +205,7 @@ def run_shard(campaign, shard, nshards, seed, tier):
         part.hist('nframes', min(case['nframes'], 100) // 5 * 5)
         part.hist('blocksize', case['insts'][0]['params'].get('blocksize', 8))
         part.hist('duplex', str(bool(case.get('duplex'))))
+        part.hist('split_passes', str(bool(case.get('split_passes'))))
         lc.run_case(part, campaign, case, oracle=make_oracle(fcref), theorem=THEOREMS)
         part.sample({'inst': case['insts'][0], 'payload_len': len(case['payload']) // 2, 'nframes': case['nframes'], 'first_ops': case['ops'][:4]})
     return part.result()
